@@ -15,7 +15,7 @@ CLAIMED = {
  'C10': seq('C10_Step (must-bump / never-bump / never-decrease / returned generation equals stored) as action property of the TLC sub-models and as monitor on every recorded step; each write is followed by the reads that expose its generation.', '7.10'),
  'C11': seq('API!Apply is the documented meaning; every recorded step over all modelled routes, versions 1.0-1.39, valid and invalid arguments, must equal Apply in status, error code, abstract body and complete next state (generation values up to their magnitude, which no property demands). Spec -> code: behaviours simulated by TLC from MC_API are replayed into the real application. The repository\'s own gabbi functional corpus (79 files, 1 312 exchanges, not part of the pinned suite) is recorded through a WSGI layer and judged by TLC: exchanges inside the alphabet of Apply step by step, the others by the request-independent rules.', '7.11'),
  'C12': seq('ConsumerIffAllocs as TLC invariant, C12_Step as action property; histories over 4 consumers at the four version bands under default and custom incomplete_consumer_* configuration, validated step by step.', '7.12'),
- 'C19': seq('C19_Inv / C19_Step on the names sub-model and on recorded histories of class/trait creation, rename and deletion; the projection compares the real os_traits / os_resource_classes vocabularies with the tables after every request. Character level: spec/NameRules.tla (legal custom name over code points, answers of the four creating operations) model checked through MC_NameRules, and crafted / mutated names sent to the real service with every exchange judged by TLC (TraceNames.tla): no illegal name stored, no duplicate, existing names answered 204 / 409. Start-up: every statement of the start-up synchronisation from an empty, partial and full database is failed once by an injected database error, and the start-up that follows in the same process must leave every standard name present.', '7.19'),
+ 'C19': seq('C19_Inv / C19_Step on the names sub-model and on recorded histories of class/trait creation, rename and deletion; the projection compares the real os_traits / os_resource_classes vocabularies with the tables after every request. Character level: spec/NameRules.tla (legal custom name over code points, answers of the four creating operations) model checked through MC_NameRules, and crafted / mutated names sent to the real service with every exchange judged by TLC (TraceNames.tla): no illegal name stored, no duplicate, existing names answered 204 / 409. Start-up: every statement of the start-up synchronisation from an empty, partial and full database is failed once by an injected database error, and the start-up that follows in the same process must leave every standard name present (spec/Startup.tla, model checked: after every start-up that returns, all standard names exist, whatever failed before).', '7.19'),
 }
 CONC_NOTE = ('Trusted base: TLC, pv/sched.py (SQLAlchemy engine events park request threads at top-level transaction begin), '
              'pv/project.py, SQLite; transactions are scheduled one at a time (atomic and isolated, the premise stated by the property). '
